@@ -6,6 +6,7 @@ from xml.etree import ElementTree
 from typing_extensions import override
 
 from .complexdop import ComplexDop
+from .compumethods.limit import IntervalType
 from .decodestate import DecodeState
 from .encodestate import EncodeState
 from .exceptions import DecodeError, EncodeError, odxassert, odxraise, odxrequire
@@ -73,6 +74,14 @@ class Multiplexer(ComplexDop):
         if not isinstance(lower_limit, type(upper_limit)) and not isinstance(
                 upper_limit, type(lower_limit)):
             odxraise("Upper and lower bounds of limits must compareable")
+
+        # a limit which exhibits the interval type OPEN does not
+        # belong to the case
+        if case.lower_limit.interval_type == IntervalType.OPEN and isinstance(lower_limit, int):
+            lower_limit += 1
+        if case.upper_limit.interval_type == IntervalType.OPEN and isinstance(upper_limit, int):
+            upper_limit -= 1
+
         return lower_limit, upper_limit
 
     def _get_default_case_key(self) -> int:
